@@ -1,5 +1,7 @@
 from dataclasses import dataclass
 
+from scapy.packet import Padding
+
 from pyp0f.exceptions import PacketError
 from pyp0f.net.layers.base import Layer
 from pyp0f.net.layers.ip import IPV4_HEADER_LENGTH, IPV6_HEADER_LENGTH
@@ -64,6 +66,13 @@ class TCP(Layer):
         if tcp.flags.P:
             quirks |= Quirk.PUSH
 
+        # Bytes after the end of the IP datagram (link-layer padding of a short
+        # frame, dissected by Scapy as a Padding layer) are not TCP payload
+        payload = bytes(tcp.payload)
+        padding = tcp.getlayer(Padding)
+        if padding is not None:
+            payload = payload[: len(payload) - len(bytes(padding))]
+
         return cls(
             type=flags,
             src_port=tcp.sport,
@@ -71,7 +80,7 @@ class TCP(Layer):
             window=tcp.window,
             seq=tcp.seq,
             options=options,
-            payload=bytes(tcp.payload),
+            payload=payload,
             header_length=header_length,
             quirks=quirks,
         )
